@@ -45,6 +45,19 @@ CLAIMED = {
               "to Python re by exhaustive correspondence)."),
         technique="Lean 4 proof (structural induction on the tokenizer) + exhaustive string correspondence + grammar-judged search",
         ref="DESIGN.md §4 C10"),
+    "C12": dict(
+        text=("Lean 4 theorems over an ordered field with sqrt abstracted (sqrt(x)^2 = x): zero radius gives the line, coincident "
+              "end points give nothing, the last generated cubic ends exactly on the arc end point (induction over the segment "
+              "loop), radius correction scales both radii by the same factor and then fits the chord exactly, the unit-frame chord "
+              "identity, the computed centre is at distance 1 from both end points in the unit frame for the arc as corrected by the "
+              "code, segment count <= 4 with each segment spanning <= pi/2+0.001. Model tied bit-for-bit to arc_to_cubic on Float; "
+              "sweep direction, extent vs large-arc flag and the 0.03% radial bound are evaluated on the implementation by an "
+              "independent F.6.5 evaluator (not proved in Lean: they need real trigonometry/analysis)."),
+        note=("Trusted: Lean kernel; propext/Classical.choice/Quot.sound; GoodMath hypotheses about sqrt and the literals; independent "
+              "Python ellipse evaluator in harness/props/c12.py; Lean Float = libm. Two defects repaired (negative radius, "
+              "degenerate inverse for large radii), see known_findings.json."),
+        technique="Lean 4 proof (field_simp/ring/nlinarith, induction on the segment loop) + Float bit correspondence + independent evaluator search",
+        ref="DESIGN.md §4 C12"),
 }
 
 def main():
